@@ -162,7 +162,8 @@ namespace via
       {
         tcp_pointer->send_data(std::move(buffers));
 
-        if (keep_alive)
+        // Note: a 100 Continue response is not the end of the exchange
+        if (keep_alive || is_continue)
           return true;
         else // disconnect once the response has been sent
           tcp_pointer->disconnect();
